@@ -233,6 +233,9 @@ def entryCalls : FwEntry → List Callee
   | .intIn => [.process]
   | .dmzIn => [.process]
 
+/-- `_process_dmz_outbound_frame` drops a layer-2 broadcast that is not for the firewall itself before the look-ups -/
+def dmzOutDropsBroadcast : Bool := true
+
 /-- 0-based ports: `EXTERNAL_PORT_ID - 1`, `INTERNAL_PORT_ID - 1`, `DMZ_PORT_ID - 1`. -/
 def extPort : Nat := 0
 def intPort : Nat := 1
@@ -271,6 +274,8 @@ def fwNext (soft : Soft W) (e : FwEntry) (p : Nat) (f : Frame) (s2 : Node W) : S
   | .extIn => if inDmzNet s2 f then fwFinal soft .dmzIn s2 p f else fwFinal soft .intIn s2 p f
   | .intOut => if inDmzNet s2 f then fwFinal soft .dmzIn s2 p f else fwFinal soft .extOut s2 p f
   | .dmzOut =>
+    -- layer-2 broadcasts are never forwarded: no outbound interface is resolved (no ARP request sent) for them (C08's repair)
+    if f.dstMac == bcastMac then .done s2 else
     (soft.dmzLookup s2 p f).bind fun s3 =>
       match soft.dmzOutNic s3 f with
       | some q =>
